@@ -1,8 +1,9 @@
+\* rolled-back governance proposals: raise / failing proposal / decisions, then the tally
 SPECIFICATION Spec
 CONSTANTS
-  FailingGov = FALSE
-  MaxHeight = 4
-  MaxTx = 4
+  FailingGov = TRUE
+  MaxHeight = 5
+  MaxTx = 3
   MaxPo = 1
   MaxFail = 1
   Presets <- PresetsQuick
